@@ -106,6 +106,20 @@ def normalize_spellings(tree):
         def visit_Call(self, node):
             node = self.generic_visit(node)
             f = node.func
+            if isinstance(f, ast.Attribute) and f.attr in _METHOD_SIGNATURES and node.keywords \
+                    and all(k.arg is not None for k in node.keywords):
+                # `x.subdivide(avg_size=a, min_size=0)` is read as `x.subdivide(a, 0)`
+                sig = _METHOD_SIGNATURES[f.attr]
+                kw = {k.arg: k.value for k in node.keywords}
+                rest = sig[len(node.args):]
+                take = []
+                for name in rest:
+                    if name in kw:
+                        take.append(kw.pop(name))
+                    else:
+                        break
+                if not kw:
+                    node = ast.copy_location(ast.Call(func=f, args=list(node.args) + take, keywords=[]), node)
             if isinstance(f, ast.Attribute) and isinstance(f.value, ast.Name) and f.value.id in ("np", "numpy") \
                     and not node.keywords:
                 if f.attr in _NP_BINOPS and len(node.args) == 2:
@@ -127,6 +141,63 @@ def normalize_spellings(tree):
                 return node.left
             return node
     return ast.fix_missing_locations(N().visit(tree))
+
+
+def expand(expr, fn, tree=None, _depth=0, keep=()):
+    """`expr` (taken from the body of `fn`) with (a) every local name that `fn` binds exactly once by a plain
+    assignment replaced by the expression it was bound to, and (b) every call `helper(a, b)` of a module-level
+    function whose body is a single `return <expr>` replaced by that expression with the arguments substituted --
+    so that a chain written in one expression, split into named steps, or moved into a small helper reads the same."""
+    import copy
+    if _depth > 8:
+        return expr
+    params = {a.arg for a in fn.args.args + fn.args.kwonlyargs}
+    binds = {}
+    for n in ast.walk(fn):
+        if isinstance(n, ast.Assign) and len(n.targets) == 1 and isinstance(n.targets[0], ast.Name):
+            binds.setdefault(n.targets[0].id, []).append(n.value)
+        elif isinstance(n, (ast.AugAssign, ast.For, ast.With)):
+            for t in ast.walk(n.target if hasattr(n, "target") else n):
+                if isinstance(t, ast.Name) and isinstance(t.ctx, ast.Store):
+                    binds.setdefault(t.id, []).extend([None, None])
+    single = {k: v[0] for k, v in binds.items() if len(v) == 1 and v[0] is not None and k not in params and k not in keep}
+    helpers = {}
+    if tree is not None:
+        for n in tree.body:
+            if isinstance(n, ast.FunctionDef):
+                body = [b for b in n.body if not (isinstance(b, ast.Expr) and isinstance(b.value, ast.Constant))]
+                if len(body) == 1 and isinstance(body[0], ast.Return) and body[0].value is not None \
+                        and not n.args.vararg and not n.args.kwarg:
+                    helpers[n.name] = n
+
+    class X(ast.NodeTransformer):
+        def visit_Name(self, node):
+            if isinstance(node.ctx, ast.Load) and node.id in single and single[node.id] is not expr:
+                return expand(copy.deepcopy(single[node.id]), fn, tree, _depth + 1, keep)
+            return node
+
+        def visit_Call(self, node):
+            node = self.generic_visit(node)
+            if isinstance(node.func, ast.Name) and node.func.id in helpers and not node.keywords:
+                h = helpers[node.func.id]
+                names = [a.arg for a in h.args.args]
+                if len(node.args) == len(names):
+                    sub = dict(zip(names, node.args))
+
+                    class S(ast.NodeTransformer):
+                        def visit_Name(self, n2):
+                            return copy.deepcopy(sub[n2.id]) if isinstance(n2.ctx, ast.Load) and n2.id in sub else n2
+                    body = [b for b in h.body if isinstance(b, ast.Return)][0]
+                    return S().visit(copy.deepcopy(body.value))
+            return node
+    return ast.fix_missing_locations(X().visit(copy.deepcopy(expr)))
+
+
+_METHOD_SIGNATURES = {   # positional order of the keyword arguments the extractors meet
+    "subdivide": ["avg_size", "min_size", "verbose"],
+    "resize_ranges": ["bp", "chrom_sizes"],
+    "into_ranges": ["other", "column", "default", "summary_func"],
+}
 
 
 def seg(src, node):
